@@ -70,6 +70,7 @@ theorem q_holder (s : St) (h : ZInv s) (u k : Nat) (hk : Ring.holdsP (s.q.thr u)
   cases hz : s.thr u <;> simp only [hz, phaseOk] at hp
   case ePub v id => exact ⟨id, by simp [held]⟩
   case dCons => exact absurd hk (consLoc_not_holdsP hp.2 k)
+  case ePubLen v => obtain ⟨sid, hs⟩ := hp.2; rw [hs] at hk; exact absurd hk (by simp [Ring.holdsP])
   all_goals (rw [hp.2] at hk; exact absurd hk (by simp [Ring.holdsP]))
 
 /-- holders of a sequence number of the FREE-LIST ring are threads in phase `dFree`, which hold a pool slot -/
@@ -78,6 +79,7 @@ theorem f_holder (s : St) (h : ZInv s) (u k : Nat) (hk : Ring.holdsP (s.free.thr
   cases hz : s.thr u <;> simp only [hz, phaseOk] at hp
   case dFree id v => exact ⟨id, by simp [held]⟩
   case eAlloc v => exact absurd hk (consLoc_not_holdsP hp.1 k)
+  case dFreeLen v => obtain ⟨sid, hs⟩ := hp.1; rw [hs] at hk; exact absurd hk (by simp [Ring.holdsP])
   all_goals (rw [hp.1] at hk; exact absurd hk (by simp [Ring.holdsP]))
 
 /-- **the queue of ids always has room**: `enqTail - head ≤ N`, so the admission test of `ring.publish(id)` never fails -/
@@ -141,7 +143,11 @@ theorem norec_step (s : St) (t : Nat) (h : ZInv s) (hn : NoRec s.free ∧ NoRec 
     · exact ⟨hf, hn.2⟩
   · dsimp only
     split
+    · exact ⟨hn.1, hq⟩
     · exact ⟨hn.1, ack _ hq⟩
+    · exact ⟨hn.1, hq⟩
+  · dsimp only
+    split
     · exact ⟨hn.1, ack _ hq⟩
     · exact ⟨hn.1, hq⟩
   · dsimp only
@@ -154,7 +160,11 @@ theorem norec_step (s : St) (t : Nat) (h : ZInv s) (hn : NoRec s.free ∧ NoRec 
   · exact ⟨noRec_nonstep _ _ (by intro u e; cases e) hn.1, hn.2⟩
   · dsimp only
     split
+    · exact ⟨hf, hn.2⟩
     · exact ⟨ack _ hf, hn.2⟩
+    · exact ⟨hf, hn.2⟩
+  · dsimp only
+    split
     · exact ⟨ack _ hf, hn.2⟩
     · exact ⟨hf, hn.2⟩
   · exact hn
